@@ -208,11 +208,15 @@ class NPProxy:
     linalg = _Linalg()
     def __getattr__(self, n): return getattr(_np, n)
     def zeros(self, shape, dtype=None, **k):
+        if self.INTS_AS_OBJECTS and dtype in (int, _np.int32, _np.int64, _np.intp):
+            a = _np.empty(shape, dtype=object); a[...] = 0; return a
         if dtype in (float, _np.float64, "d", None, _np.float32):
             a = _np.empty(shape, dtype=object); a[...] = 0.0; return a
         return _np.zeros(shape, dtype, **k)
     def empty(self, shape, dtype=None, **k): return self.zeros(shape, dtype)
     def ones(self, shape, dtype=None, **k):
+        if self.INTS_AS_OBJECTS and dtype in (int, _np.int32, _np.int64, _np.intp):
+            a = _np.empty(shape, dtype=object); a[...] = 1; return a
         if dtype in (float, _np.float64, "d", None):
             a = _np.empty(shape, dtype=object); a[...] = 1.0; return a
         return _np.ones(shape, dtype, **k)
@@ -280,6 +284,7 @@ class NPProxy:
                 v = x[idx]; v = ite(v < lo, lo, v); v = ite(v > hi, hi, v); out[idx] = v
             return out
         return _np.clip(x, lo, hi)
+    INTS_AS_OBJECTS = False
 NP = NPProxy()
 
 class MathProxy:
